@@ -152,6 +152,8 @@ def run_op(prep, st, sim, info, cancel_at):
                 except (TypeError, ValueError):
                     break
                 n += 1
+                if n > 3000:
+                    raise RuntimeError("tool over finite inputs does not end")
         except Cancel as err:
             info["leaving"] = err
             # the owner closes the iterator it was advancing, then everything must be released
